@@ -92,7 +92,7 @@ pub const CUBE_PATTERNS: &[&str] = &[
     // right anchor
     "bar|", "/foo/bar|", "ads^|", ".js|",
     // left anchor
-    "|https://ads.net/ads", "|https://", "|http://ads.net", "|https://ads.net/|", "|https://*.ads.net/", "|ws",
+    "|https://ads.net/ads", "|https://", "|http://ads.net", "|https://ads.net/|", "|https://*.ads.net/", "|ws", "|wss://ads.net/ads", "|ws://ads.net/",
     // hostname anchor
     "||ads.net^", "||ads.net", "||ads.net/", "||ads.net/ads", "||ads.net*ads", "||ads.net^ads", "||ads.net^*ads", "||ads.net/ads|", "||ads.net^|", "||net^", "||a.ads.net^", "||ads.net/*/bar",
     "||tracker.co.uk^", "||co.uk^", "||example.com/foo/bar", "||ads.net:", "||ads.net?", "||ads.", "||1.2.3.4^", "||1.2.3.4/ads",
@@ -101,7 +101,7 @@ pub const CUBE_PATTERNS: &[&str] = &[
     // hostname anchor with an empty host text (the parser keeps an empty hostname)
     "||*/foo/", "||/foo/bar", "||^foo^",
     // full regex and empty
-    "/ads[a-z]*\\/bar/", "/^https?:\\/\\/ads\\./", "/\\/ADS/", "/ads[0-/", "*", "",
+    "/ads[a-z]*\\/bar/", "/^https?:\\/\\/ads\\./", "/\\/ADS/", "/ads[0-/", "/ads\\Dfoo/", "/\\Wads\\W/", "*", "",
 ];
 
 pub const CUBE_OPTIONS: &[&str] = &[
